@@ -199,7 +199,7 @@ func concurrentTrial(r *vlib.Run, trial int, rng *rand.Rand) {
 			}
 			<-start
 			var calls, sh int64
-			for k := 0; k < iters; k++ {
+			step := func(k int) {
 				it := items[(k/4)%len(items)]
 				if it.shared {
 					sh++
@@ -208,6 +208,16 @@ func concurrentTrial(r *vlib.Run, trial int, rng *rand.Rand) {
 				desc := func() map[string]interface{} {
 					return map[string]interface{}{"goroutine": g, "goroutines": nG, "gomaxprocs": procs, "shared_object": it.shared, "path": wPath(it.p), "prefix": wPath(it.prefix), "call_no": k}
 				}
+				// A result that cannot even be read (e.g. a torn string header
+				// produced by a data race inside the code under test) faults in the
+				// comparison below; that is a wrong result, not a harness failure.
+				defer func() {
+					if rec := recover(); rec != nil {
+						fail("tostrings:concurrent-corrupt-result",
+							fmt.Sprintf("goroutine %d of %d (GOMAXPROCS %d, shared object: %v): the index returned for path{%s} / prefix{%s} (call kind %d of ToStrings no-prefix, ToStrings prefix, ToStrings of the prefix, CompletePath) could not be read: %v",
+								g, nG, procs, it.shared, canon(it.p), canon(it.prefix), k%4, rec), desc())
+					}
+				}()
 				switch k % 4 {
 				case 0, 1:
 					pre := k%4 == 1
@@ -246,6 +256,9 @@ func concurrentTrial(r *vlib.Run, trial int, rng *rand.Rand) {
 								g, nG, procs, it.shared, canon(it.prefix), canon(it.p), q(got), q(it.wantFull)), desc())
 					}
 				}
+			}
+			for k := 0; k < iters; k++ {
+				step(k)
 			}
 			atomic.AddInt64(&pathCalls, calls)
 			atomic.AddInt64(&sharedHits, sh)
@@ -311,6 +324,10 @@ func concurrentTrial(r *vlib.Run, trial int, rng *rand.Rand) {
 	r.Count("concurrent_path_calls_on_shared_objects", sharedHits)
 	r.Count("concurrent_value_calls", valueCalls)
 	r.Count("concurrent_mismatches", nMismatch)
+	r.Count(fmt.Sprintf("concurrent_path_calls_gomaxprocs_%02d", procs), pathCalls)
+	if nMismatch > 0 {
+		r.Count(fmt.Sprintf("concurrent_mismatches_gomaxprocs_%02d_gcpercent_%d", procs, gcPct), nMismatch)
+	}
 	r.SetAdd("concurrent_configs_goroutines_x_gomaxprocs", fmt.Sprintf("g%d-p%d", nG, procs))
 	r.Distinct(vlib.Hash("conc", trial, nG, procs, gcPct))
 	for _, m := range mismatches {
